@@ -8,6 +8,7 @@ import (
 	"crypto/sha512"
 	"encoding/hex"
 	"fmt"
+	"io"
 	"math/big"
 	"strings"
 	"sync"
@@ -351,4 +352,99 @@ func TestAllShortHistories(t *testing.T) {
 	s.NontrivialEnum(nontrivial)
 	s.MarkExhaustive(fmt.Sprintf("all histories of length <= %d over a 16-letter alphabet", maxLen))
 	s.Sample(func() any { return histString([]step{alphabet[0], alphabet[2], alphabet[5], alphabet[4]}) })
+}
+
+// TestManyClients: the bookkeeping must not depend on HOW MANY clients and bindings the attester has seen (tables,
+// caches or pools with a capacity would start to forget or to confuse entries at some size). Many clients (harness-built
+// authentic requests, so the cost per client is a few scalar multiplications) are verified and bound to two origins
+// each; afterwards every accepted pair must still be accepted with the same ID, a second anonymous origin ID for a bound
+// index must still be refused, and a client that was never verified must still be refused.
+func TestManyClients(t *testing.T) {
+	s := rt.S("many-clients").SetRule("N clients (quick 300, thorough 1500 per shard) with drawn secrets and blinds: VerifyRequest of a harness-built authentic request, FinalizeIndex for two origins with per-client anonymous origin IDs; after ALL clients: every accepted (client, origin, anon) is accepted again with the reference ID, another anon ID for the same index is refused, an unverified client is refused. non-trivial = every client beyond the first; distinct by client secret")
+	nClients := rt.N(300, 24000)
+	u := theUniverse()
+	n := elliptic.P384().Params().N
+	stream := rt.NewDRBG([]byte(fmt.Sprintf("many clients %d %d", rt.BaseSeed, rt.Shard)))
+	att := type3.NewRateLimitedAttester(&memCache{m: map[string]*type3.ClientState{}})
+	type client struct {
+		key, blind []byte
+		ids        [2][]byte
+	}
+	var clients []client
+	scalar := func() *big.Int {
+		b := make([]byte, 56)
+		if _, err := io.ReadFull(stream, b); err != nil {
+			t.Fatal(err)
+		}
+		v := new(big.Int).SetBytes(b)
+		return v.Mod(v, new(big.Int).Sub(n, big.NewInt(1))).Add(v, big.NewInt(1))
+	}
+	finalize := func(c client, o int, anon []byte) ([]byte, error) {
+		requestKey := ref.BlindCompressed(c.key, new(big.Int).SetBytes(c.blind), ref.ClientBlindCtx)
+		blindedReqKey := ref.BlindCompressed(requestKey, u.indexKeys[o], ref.IssuerBlindCtx)
+		var id []byte
+		var err error
+		if out := rt.GuardLite(func() {
+			id, err = att.FinalizeIndex(append([]byte{}, c.key...), append([]byte{}, c.blind...), blindedReqKey, append([]byte{}, anon...))
+		}); out.Panic != nil {
+			return nil, fmt.Errorf("panic: %v", out.Panic)
+		}
+		return append([]byte{}, id...), err
+	}
+	anonOf := func(i, o int) []byte { return []byte(fmt.Sprintf("anon-%d-%d", i, o)) }
+	for i := 0; i < nClients; i++ {
+		d := scalar()
+		x, y := elliptic.P384().ScalarBaseMult(d.Bytes())
+		c := client{key: elliptic.MarshalCompressed(elliptic.P384(), x, y), blind: scalar().Bytes()}
+		r := ref.ECDSABlindScalar(elliptic.P384(), new(big.Int).SetBytes(c.blind), ref.ClientBlindCtx)
+		db := new(big.Int).Mul(d, r)
+		db.Mod(db, n)
+		bx, by := elliptic.P384().ScalarBaseMult(db.Bytes())
+		req := type3.RateLimitedTokenRequest{RequestKey: elliptic.MarshalCompressed(elliptic.P384(), bx, by), NameKeyID: bytes.Repeat([]byte{0x11}, 32), EncryptedTokenRequest: bytes.Repeat([]byte{byte(i)}, 64)}
+		dg := sha512.Sum384(ref.EncodeRateLimitedRequest(req.RequestKey, req.NameKeyID, req.EncryptedTokenRequest, nil))
+		rr, ss, err := stdecdsa.Sign(stream, &stdecdsa.PrivateKey{PublicKey: stdecdsa.PublicKey{Curve: elliptic.P384(), X: bx, Y: by}, D: db}, dg[:])
+		if err != nil {
+			t.Fatal(err)
+		}
+		req.Signature = make([]byte, 96)
+		rr.FillBytes(req.Signature[:48])
+		ss.FillBytes(req.Signature[48:])
+		if err := att.VerifyRequest(req, append([]byte{}, c.blind...), append([]byte{}, c.key...), anonOf(i, 0)); err != nil {
+			rt.Report(t, "C09/many/verify", "", nil, "client %d of %d: authentic request refused: %v", i, nClients, err)
+			return
+		}
+		for o := 0; o < 2; o++ {
+			id, err := finalize(c, o, anonOf(i, o))
+			want := ref.AnonymousIssuerOriginID(c.key, u.indexKeys[o])
+			if err != nil || !bytes.Equal(id, want) {
+				rt.Report(t, "C09/many/first-binding", "", nil, "client %d of %d, origin %d: first, unbound pair: err=%v id=%x want %x", i, nClients, o, err, id, want)
+				return
+			}
+			c.ids[o] = want
+		}
+		clients = append(clients, c)
+		s.Eval()
+	}
+	for i, c := range clients {
+		for o := 0; o < 2; o++ {
+			if id, err := finalize(c, o, anonOf(i, o)); err != nil || !bytes.Equal(id, c.ids[o]) {
+				rt.Report(t, "C09/many/binding-lost", "", nil, "after %d clients: the accepted pair of client %d, origin %d is now answered err=%v id=%x (was %x)", len(clients), i, o, err, id, c.ids[o])
+				return
+			}
+			if _, err := finalize(c, o, anonOf(i, 1-o)); err == nil {
+				rt.Report(t, "C09/many/two-anon-ids", "", nil, "after %d clients: a second anonymous origin ID is accepted for client %d, origin %d", len(clients), i, o)
+				return
+			}
+		}
+	}
+	d := scalar()
+	x, y := elliptic.P384().ScalarBaseMult(d.Bytes())
+	if _, err := finalize(client{key: elliptic.MarshalCompressed(elliptic.P384(), x, y), blind: scalar().Bytes()}, 0, []byte("anon")); err == nil {
+		rt.Report(t, "C09/many/accepted-unverified-client", "", nil, "after %d clients: a client that was never verified is accepted", len(clients))
+		return
+	}
+	if len(clients) > 1 {
+		s.NontrivialEnum(int64(len(clients) - 1))
+	}
+	s.Sample(func() any { return map[string]any{"clients": len(clients)} })
 }
